@@ -310,6 +310,7 @@ Section WithHash.
   (* ---- histories ---- *)
   Inductive bop :=
   | BFlush (mem : list entry) (l : N) (roll : bool)
+  | BIngest (ents : list entry) (roll : bool)      (* LsmTree::ingest of an external sst: no 'L' *)
   | BCompact (inputs : list state) (lens : list nat) (roll : bool)
   | BGc (inputs : list state) (lens : list nat) (roll : bool)
   | BMove (input : state)
@@ -318,6 +319,7 @@ Section WithHash.
   Definition bstep (b : bstore) (o : bop) : res bstore :=
     match o with
     | BFlush mem l roll => flush b mem l roll
+    | BIngest ents roll => ingest b (build_file ents) None roll
     | BCompact inputs lens roll => compact b inputs lens roll
     | BGc inputs lens roll => gc b inputs lens roll
     | BMove input => move b input
@@ -372,6 +374,7 @@ Section WithHash.
   Definition accepted (b : bstore) (o : bop) : bool :=
     match o with
     | BFlush mem _ _ => outs_ok b [] [build_file (sort_entries mem)]
+    | BIngest ents _ => outs_ok b [] [build_file ents]
     | BCompact inputs lens _ =>
         match open_inputs (btree b) inputs with
         | Some fs => outs_ok b inputs (map build_file (cut lens (merged fs)))
